@@ -111,6 +111,7 @@ type Frame struct {
 	loopDefers []*ssa.Defer
 	reads   []tokenRead
 	forceClaim bool // the next nil obligation is claimed (safederef)
+	callFresh  map[string]bool // locations the callee being abstracted writes only in objects it allocates
 }
 
 func (vc *VC) note(format string, a ...any) {
